@@ -148,10 +148,13 @@ def rule_state(repo, rep):
         if key in HISTORY_SAFE:
             rep.ok("C14-a", site, f"process-wide store {qn}", "history-safe: " + HISTORY_SAFE[key])
             if key == ("weight_compressor", "CompressedWeightCache.cache"):
-                # safe only as a grow-only map: an eviction / clear makes a later hit depend on how many entries earlier compilations left
+                # during one compilation the cache only grows: an eviction makes a later hit depend on how many entries were left.
+                # The one place that may empty it is CompressedWeightCache.clear(), callable from the entry points only
                 wc_ = repo.mod("weight_compressor")
                 ev = []
                 for q_, f_ in wc_.functions.items():
+                    if q_ == "CompressedWeightCache.clear":
+                        continue
                     for x_ in ast.walk(f_):
                         if isinstance(x_, ast.Call) and isinstance(x_.func, ast.Attribute) and x_.func.attr in ("clear", "pop", "popitem") and "cache" in str(norm(x_.func.value)):
                             ev.append(f"{q_}: {norm(x_)}")
@@ -159,24 +162,34 @@ def rule_state(repo, rep):
                             ev.append(f"{q_}: {norm(x_)}")
                         if isinstance(x_, ast.Assign) and str(norm(x_.targets[0])).endswith("CompressedWeightCache.cache") and q_ != "CompressedWeightCache.__init__":
                             ev.append(f"{q_}: {norm(x_)}")
-                rep.check(not ev, "C14-a", site, "the compression cache only grows (no eviction, clear or rebinding while compiling)",
+                for m_ in repo.core_modules():
+                    for q_, f_ in m_.functions.items():
+                        for x_ in calls_in(f_):
+                            if (call_name(x_) or "").endswith("CompressedWeightCache.clear") and not (m_.name == "vela" and q_ in ENTRY):
+                                ev.append(f"{m_.name}.{q_}: {norm(x_)}")
+                rep.check(not ev, "C14-a", site, "the compression cache only grows while compiling (no eviction, clear or rebinding outside the entry points' reset)",
                           f"{ev[:2]}: whether two operators sharing a weight tensor get the same encoded tensor now depends on how full earlier compilations left the cache")
+                # an entry cannot be hit by a later compilation: either every key component `value_id` is minted per tensor
+                # object (uuid4 / copied from a tensor), or the cache is emptied at the start of every entry point
+                stale = _memoised_value_ids(repo)
+                clr = wc_.functions.get("CompressedWeightCache.clear")
+                clears = clr is not None and any(isinstance(x_, ast.Call) and str(norm(x_.func)) in ("CompressedWeightCache.cache.clear", "cls.cache.clear") for x_ in ast.walk(clr)) or \
+                    (clr is not None and any(isinstance(x_, ast.Assign) and str(norm(x_.targets[0])) in ("CompressedWeightCache.cache", "cls.cache") and str(norm(x_.value)) in ("{}", "dict()") for x_ in ast.walk(clr)))
+                if stale and not clears:
+                    rep.bad("C14-a", site, "cache keys are unique to one compilation (value ids minted per tensor), or the cache is reset at every entry point",
+                            f"value ids taken from the process-lifetime memo create_equivalence_id at {stale[:3]} and no reset: a later compilation of a network with the same generated constants "
+                            "hits the earlier compilation's encoded tensors (demonstrated: MEAN over H,W compiled twice in one process gives different output files)")
+                elif stale:
+                    for ep in ENTRY:
+                        ok, detail = _reset_at_entry(vela, ep, "CompressedWeightCache.clear")
+                        rep.check(ok, "C14-a", f"{VP}:{ep}", f"{qn} is reset at the start of {ep}() (its keys are not unique to one compilation: {len(stale)} memoised value ids)", detail)
+                else:
+                    rep.ok("C14-a", site, "every value id in a cache key is minted per tensor object", "")
             continue
         if key in RESETS:
             reset = RESETS[key]
             for ep in ENTRY:
-                f = vela.func(ep)
-                c = cfg_of(f)
-                cs = calls_in(f, reset)
-                ok = False
-                detail = f"{ep}() never calls {reset}()"
-                if cs:
-                    first = min(cs, key=lambda x: x.lineno)
-                    nid = c.node_of(first)
-                    # at entry: dominates every call that can reach the compiler or the readers / writers
-                    work = [x for x in calls_in(f) if (call_name(x) or "").split(".")[0] in ("compiler_driver", "model_reader", "tflite_writer", "stats_writer", "rawdata_writer")]
-                    ok = all(c.dominates(nid, c.node_of(w)) for w in work) and c.postdominates(nid, 0)
-                    detail = f"{reset}() in {ep}() does not precede the compilation on every path (a reset after the work is skipped when the compilation raises)"
+                ok, detail = _reset_at_entry(vela, ep, reset)
                 rep.check(ok, "C14-a", f"{VP}:{ep}", f"{qn} is reset at the start of {ep}()", detail)
             continue
         rep.bad("C14-a", site, f"process-wide mutable store {qn} written by {written[key][:3]}", "not reset by the entry points and not in the reviewed history-safe table")
@@ -189,6 +202,45 @@ def rule_state(repo, rep):
     rep.check(want <= cleared, "C14-a", "ethosu/vela/debug_database.py:DebugDatabase.clean_db", "clean_db() resets every mutable table of the database", f"not reset: {sorted(want - cleared)}")
     ca = repo.mod("tensor").func("TensorAddressMap.clear_address_map")
     rep.check(any(isinstance(s, ast.Assign) and norm(s.targets[0]) == "cls.address_map" for s in ca.body), "C14-a", "ethosu/vela/tensor.py:TensorAddressMap.clear_address_map", "clear_address_map() rebinds the map", "")
+
+
+def _reset_at_entry(vela, ep, reset):
+    f = vela.func(ep)
+    c = cfg_of(f)
+    cs = [x for x in calls_in(f) if (call_name(x) or "") == reset or (call_name(x) or "").endswith("." + reset)]
+    if not cs:
+        return False, f"{ep}() never calls {reset}()"
+    first = min(cs, key=lambda x: x.lineno)
+    nid = c.node_of(first)
+    # at entry: dominates every call that can reach the compiler or the readers / writers
+    work = [x for x in calls_in(f) if (call_name(x) or "").split(".")[0] in ("compiler_driver", "model_reader", "tflite_writer", "stats_writer", "rawdata_writer")]
+    ok = all(c.dominates(nid, c.node_of(w)) for w in work) and c.postdominates(nid, 0)
+    return ok, f"{reset}() in {ep}() does not precede the compilation on every path (a reset after the work is skipped when the compilation raises)"
+
+
+def _memoised_value_ids(repo):
+    """`t.value_id = ...` sites whose right-hand side is (an alias of) a create_equivalence_id(...) result: that function is
+    memoised for the life of the process, so the id is the same in every later compilation."""
+    out = []
+    for m in repo.core_modules():
+        if m.name.startswith("tosa"):
+            continue
+        for q, fn in m.functions.items():
+            memo = set()
+            for st in sorted((x for x in ast.walk(fn) if isinstance(x, ast.Assign)), key=lambda x: x.lineno):
+                v = st.value
+                is_memo = (isinstance(v, ast.Call) and (call_name(v) or "").split(".")[-1] == "create_equivalence_id") or str(norm(v)) in memo
+                tgt = str(norm(st.targets[0]))
+                if is_memo:
+                    memo.add(tgt)
+                else:
+                    memo.discard(tgt)
+                if tgt.endswith(".value_id"):
+                    fresh = (isinstance(v, ast.Call) and (call_name(v) or "") in ("uuid.uuid4", "uuid4")) or (isinstance(v, ast.Attribute) and v.attr == "value_id") or \
+                        (isinstance(v, ast.Attribute) and v.attr == "equivalence_id" and not is_memo)
+                    if not fresh:
+                        out.append(f"{m.name}.py:{q} `{str(norm(st))[:70]}`")
+    return out
 
 
 def _refers(d, info, here, home):
@@ -206,6 +258,22 @@ def _refers(d, info, here, home):
 
 
 def rule_random(repo, rep):
+    # uninitialised storage is a source of run-to-run variation like a random generator: every array the compiler allocates is
+    # created with defined contents (zeros / ones / full / array / copies), never np.empty / np.ndarray(shape)
+    n_alloc = 0
+    for m in repo.core_modules():
+        for x in ast.walk(m.tree):
+            if not isinstance(x, ast.Call):
+                continue
+            d = call_name(x) or ""
+            if d.split(".")[0] in ("np", "numpy") and d.split(".")[-1] in ("zeros", "ones", "full", "zeros_like", "ones_like", "full_like", "empty", "empty_like", "ndarray"):
+                fn = m.enclosing_function(x)
+                n_alloc += 1
+                rep.check(d.split(".")[-1] not in ("empty", "empty_like", "ndarray"), "C14-b", f"ethosu/vela/{m.name}.py:{m.qualname_of(fn) if fn else '<module>'}",
+                          f"`{str(norm(x))[:70]}` allocates an array with defined contents", "uninitialised allocation: elements the following code does not overwrite hold whatever the heap held, "
+                          "which depends on what the process did before (weights, tables and therefore the output differ between runs)")
+    if n_alloc < 15:
+        raise AnalysisError(f"array allocations: only {n_alloc} found")
     users = []
     for m in repo.core_modules():
         uses_random = "random" in m.imports and m.imports["random"][2] == "random"
@@ -344,6 +412,67 @@ def rule_order(repo, rep):
                         n += 1
                         proj = isinstance(key, ast.Lambda) and isinstance(key.body, ast.Subscript)
                         rep.check(not proj, "C14-c", site, f"{norm(node)[:90]}: the sort key over a set is total", "the key projects one component: ties keep the set's hash-dependent order")
+    # ordering methods and sort keys compare reproducible values only: Tensor.__lt__ orders by equivalence_id, a uuid4, so a
+    # comparison that falls through to tensors (or lists of them), to an equivalence / value id, or to id() / hash() gives
+    # an order that differs from run to run; allocation order, hence every address in the output, follows it
+    ten = repo.mod("tensor").func("Tensor.__lt__")
+    if "equivalence_id" not in str(norm(ten)):
+        raise AnalysisError("Tensor.__lt__ no longer orders by equivalence_id: review the identity-ordered attribute list")
+    IDENTITY = {"tensors", "tensor", "tens", "equivalence_id", "value_id", "src_tensor", "ops", "op", "consumer_list"}
+    n_ord = 0
+
+    def identity_operands(expr, fn):
+        bad = []
+        sa = {str(norm(t_.targets[0])): t_.value for t_ in ast.walk(fn) if isinstance(t_, ast.Assign) and len(t_.targets) == 1 and isinstance(t_.targets[0], ast.Name)} if fn is not None else {}
+        todo, seen = [expr], set()
+        while todo:
+            e = todo.pop()
+            if isinstance(e, ast.Compare):
+                todo += [e.left] + list(e.comparators)
+            elif isinstance(e, ast.BinOp):
+                todo += [e.left, e.right]
+            elif isinstance(e, ast.UnaryOp):
+                todo.append(e.operand)
+            elif isinstance(e, (ast.Tuple, ast.List)):
+                todo += list(e.elts)
+            elif isinstance(e, ast.IfExp):
+                todo += [e.body, e.orelse]
+            elif isinstance(e, ast.BoolOp):
+                todo += list(e.values)
+            elif isinstance(e, ast.Subscript):
+                todo.append(e.value)
+            elif isinstance(e, ast.Attribute):
+                if e.attr in IDENTITY:
+                    bad.append(str(norm(e)))
+            elif isinstance(e, ast.Call):
+                if call_name(e) in ("id", "hash"):
+                    bad.append(str(norm(e)))
+            elif isinstance(e, ast.Name) and e.id in sa and e.id not in seen:
+                seen.add(e.id)
+                todo.append(sa[e.id])
+        return bad
+
+    for m in repo.core_modules():
+        if m.name.startswith("tosa"):
+            continue
+        m_par = m.parents
+        for q, fn in m.functions.items():
+            if q.split(".")[-1] in ("__lt__", "__gt__", "__le__", "__ge__") and q != "Tensor.__lt__":
+                for cmp_ in ast.walk(fn):
+                    if isinstance(cmp_, ast.Compare) and any(isinstance(o, (ast.Lt, ast.Gt, ast.LtE, ast.GtE)) for o in cmp_.ops):
+                        n_ord += 1
+                        bad = identity_operands(cmp_, fn)
+                        rep.check(not bad, "C14-c", f"ethosu/vela/{m.name}.py:{q}", f"`{str(norm(cmp_))[:70]}` orders by reproducible values",
+                                  f"compares {bad}: tensors order by their uuid4 equivalence id, so ties between otherwise equal live ranges are broken differently in every run")
+            for c_ in walk_no_nested(fn):
+                if isinstance(c_, ast.Call) and ((call_name(c_) or "") in ("sorted", "min", "max") or (isinstance(c_.func, ast.Attribute) and c_.func.attr == "sort")):
+                    key = next((k.value for k in c_.keywords if k.arg == "key"), None)
+                    if isinstance(key, ast.Lambda):
+                        n_ord += 1
+                        bad = identity_operands(key.body, None)
+                        rep.check(not bad, "C14-c", f"ethosu/vela/{m.name}.py:{q}", f"sort key `{str(norm(key))[:70]}` is built from reproducible values", f"key uses {bad} (identity / uuid order)")
+    if n_ord < 10:
+        raise AnalysisError(f"ordering methods / sort keys: only {n_ord} comparisons found")
     tw = repo.mod("tflite_writer")
     init = tw.func("TFLiteSerialiser.__init__")
     oc = [s for s in ast.walk(init) if isinstance(s, ast.Assign) and norm(s.targets[0]) == "self.operator_codes"]
